@@ -776,6 +776,52 @@ def install_more(models):
             return ((1 << w) - 1) if m == "saturating_add" else opt(None)
         raise Unsupported(c)
 
+    WS_RANGES = [(9, 13), (32, 32), (0x85, 0x85), (0xA0, 0xA0), (0x1680, 0x1680), (0x2000, 0x200A), (0x2028, 0x2029), (0x202F, 0x202F), (0x205F, 0x205F), (0x3000, 0x3000)]
+
+    def is_ws_char(ex, ch):
+        if isinstance(ch, int):
+            return any(lo <= ch <= hi for lo, hi in WS_RANGES)
+        return ex.branch_bool(SB(z3.Or([z3.And(z3.UGE(ch.e, lo), z3.ULE(ch.e, hi)) for lo, hi in WS_RANGES])))
+
+    @R(r"^core::str::<impl str>::(trim|trim_end|trim_start)$")
+    def _trim(ex, c, a):
+        sl = as_slice(a[0])
+        lo, hi = sl.lo, sl.hi
+        if not c.endswith("trim_start"):
+            while hi > lo and is_ws_char(ex, sl.s.chars[hi - 1]):
+                hi -= 1
+        if not c.endswith("trim_end"):
+            while lo < hi and is_ws_char(ex, sl.s.chars[lo]):
+                lo += 1
+        return StrSlice(sl.s, lo, hi)
+
+    @R(r"^core::str::<impl str>::(strip_suffix|strip_prefix|trim_end_matches|trim_start_matches)::<char>$")
+    def _strip_char(ex, c, a):
+        sl = as_slice(a[0]); pat = a[1]
+        pe = pat.e if isinstance(pat, SV) else z3.BitVecVal(pat, 32)
+
+        def eq(ch):
+            if isinstance(ch, int) and isinstance(pat, int):
+                return ch == pat
+            return ex.branch_bool(SB((ch.e if isinstance(ch, SV) else z3.BitVecVal(ch, 32)) == pe))
+        m = re.search(r"(strip_suffix|strip_prefix|trim_end_matches|trim_start_matches)", c).group(1)
+        lo, hi = sl.lo, sl.hi
+        if m == "strip_suffix":
+            if hi > lo and eq(sl.s.chars[hi - 1]):
+                return opt(StrSlice(sl.s, lo, hi - 1))
+            return opt(None)
+        if m == "strip_prefix":
+            if hi > lo and eq(sl.s.chars[lo]):
+                return opt(StrSlice(sl.s, lo + 1, hi))
+            return opt(None)
+        if m == "trim_end_matches":
+            while hi > lo and eq(sl.s.chars[hi - 1]):
+                hi -= 1
+        else:
+            while lo < hi and eq(sl.s.chars[lo]):
+                lo += 1
+        return StrSlice(sl.s, lo, hi)
+
     @R(r"^Option::<&str>::is_some_and::<.*>$")
     def _is_some_and(ex, c, a):
         o = deref(a[0])
